@@ -399,12 +399,16 @@ def distinctKeys : List (Nid × Nid) → Bool
   | [] => true
   | (k, _) :: t => !(t.any (·.1 == k)) && distinctKeys t
 
+/-- one op.  `<env> ! <op>`: the environment's type checker rejects what this op asks it
+    (an ill-sorted call): the manager runs the op with the verdict `false`. -/
 def step (st : St) (toks : List String) : Option St :=
   match toks with
-  | envTok :: rest =>
+  | envTok :: rest0 =>
     match envTok.toNat? with
     | some e =>
       if e ≥ nEnv then none else
+      let reject := rest0.head? == some "!"
+      let rest := if reject then rest0.drop 1 else rest0
       match rest with
       | ["normalize", r] => do
         -- `World.normalize`: source = the environment the referenced object lives in
@@ -418,24 +422,25 @@ def step (st : St) (toks : List String) : Option St :=
         some { st with results := st.results.push (e, r) }
       | "Array" :: _ :: _ :: [kvs] =>
         match st.pairs e kvs with
-        | some ps => if distinctKeys ps then run e rest else none
+        | some ps => if distinctKeys ps then run e reject rest else none
         | none => none
       | name :: l :: [] =>
         match bvNary name with
         | some nt => do
           let ids ← st.refs e l
-          exec e (mkBVNary nt ids)
-        | none => run e rest
-      | _ => run e rest
+          exec e reject (mkBVNary nt ids)
+        | none => run e reject rest
+      | _ => run e reject rest
     | none => none
   | [] => none
 where
-  exec (e : Nat) (p : Prog Nid) : Option St :=
-    let (r, m') := p.run (st.mgr e)
-    some { (st.setMgr e m') with results := st.results.push (e, r) }
-  run (e : Nat) (rest : List String) : Option St :=
+  exec (e : Nat) (reject : Bool) (p : Prog Nid) : Option St :=
+    let m := st.mgr e
+    let (r, m') := p.run (if reject then { m with tc := fun _ => false } else m)
+    some { (st.setMgr e { m' with tc := m.tc }) with results := st.results.push (e, r) }
+  run (e : Nat) (reject : Bool) (rest : List String) : Option St :=
     match opProg st e rest with
-    | some p => exec e p
+    | some p => exec e reject p
     | none => none
 
 def splitOps (toks : List String) : List (List String) :=
